@@ -459,6 +459,134 @@ def execute_c04(case):
     return ok(nontrivial, labels)
 
 
+def c04_imap_cases():
+    """an imap / imap_unordered some of whose items kill their worker"""
+    return st.fixed_dictionaries({
+        'procs': st.integers(1, 4),
+        'lost': st.sampled_from([0.3, 0.5, 1.0]),
+        'kind': st.sampled_from(['imap', 'imap_unordered']),
+        'n': st.integers(3, 8),
+        'victims': st.lists(st.tuples(st.integers(0, 7), _DEATH), min_size=1,
+                            max_size=2, unique_by=lambda v: v[0]),
+        'others': st.integers(0, 4),
+    })
+
+
+def execute_c04_imap(case):
+    L, n = case['lost'], case['n']
+    victims = {}
+    for x, death in case['victims']:
+        victims.setdefault(x % n, death)
+    script = [['sleep', 0.15]]
+    for x, death in sorted(victims.items()):
+        script.append(['kill_if' if death[0] == 'kill' else 'exit_if', [x],
+                       death[1]])
+    script.append(['retx', 9])
+    steps = []
+    for i in range(case['others'] // 2):
+        steps.append(['apply', 'o%d' % i, [['sleep', 0.1], ['ret', i]], {}])
+    steps.append(['map', 'im', script, n, 1, case['kind']])
+    for i in range(case['others'] // 2, case['others']):
+        steps.append(['apply', 'o%d' % i, [['sleep', 0.05], ['ret', i]], {}])
+    steps += [['drain', 'im', 60], ['wait_all', 30],
+              ['wait_size', case['procs'], 20], ['snapshot', 'after'],
+              ['terminate']]
+    scen = {'pool': {'procs': case['procs'], 'lost': L}, 'steps': steps,
+            'watch': 150, 'settle': 0.2}
+    obs = run_scenario(scen)
+    labels = ['imap_victims=%d' % len(victims), case['kind']]
+    nontrivial = True
+    t = _harness_trouble(obs, 'C04')
+    if t:
+        return t
+    if obs['hung']:
+        return inconclusive('watchdog: %s' % obs['stacks'][-300:], labels)
+    rec = obs['jobs'].get('im', {})
+    items = rec.get('items')
+    if items is None:
+        return inconclusive('imap never drained', labels)
+    dies = {}
+    for e in _exec_by(obs, 'die'):
+        if e[1].startswith('im.'):
+            dies[int(e[1][3:])] = (int(e[2]), float(e[3]))
+    if set(dies) != set(victims):
+        return inconclusive('victims that ran: %r of %r' % (sorted(dies),
+                                                            sorted(victims)), labels)
+    # the real-world face of the open finding D7: the supervisor reaped a victim
+    # before the result handler consumed that part's ACK
+    acks = {a[0]: a for a in rec.get('part_acks', [])}
+    for x, (pid, t_die) in dies.items():
+        t_down = [d[2] for d in obs.get('downs', []) if d[0] == pid]
+        if t_down and x in acks and acks[x][2] > t_down[0]:
+            labels.append('ack_consumed_after_reap')
+            return bad('C04/real-ack-after-reap', 'imap part %d: worker %d reaped '
+                       'before its ACK was consumed; items %r' % (x, pid, items),
+                       nontrivial, labels)
+    body, last = items[:-1], items[-1]
+    if last[0] != 'stop':
+        return bad('C04/real-imap-loss-not-surfaced', '%s over %d items, victims '
+                   '%r: the iterator gave %r and then nothing for 60 s' % (
+                       case['kind'], n, sorted(victims), [i[:2] for i in items]),
+                   nontrivial, labels)
+    if len(body) != n:
+        return bad('C04/real-imap-item-count', '%s over %d items yielded %d: %r'
+                   % (case['kind'], n, len(body), [i[:2] for i in body]),
+                   nontrivial, labels)
+    texts = [('signal %d' % d[1]) if d[0] == 'kill' else ('exitcode %d' % d[1])
+             for d in victims.values()]
+    t_first = min(t for _, t in dies.values())
+    t_last = max(t for _, t in dies.values())
+    errs = [i for i in body if i[0] == 'err']
+    oks = [i[1] for i in body if i[0] == 'ok']
+    for e in errs:
+        d = e[1]
+        if d.get('type') != 'WorkerLostError':
+            return bad('C04/real-wrong-outcome', 'imap item failed with %r' % (d,),
+                       nontrivial, labels)
+        if not any(tx in d.get('args', '') for tx in texts):
+            return bad('C04/real-status-text', 'imap item: %s names none of %r' % (
+                d.get('args'), texts), nontrivial, labels)
+        if e[2] < t_first + L - 0.005:
+            return bad('C04/real-early', 'imap loss shown %.3fs after the first '
+                       'death, lost timeout %.2f' % (e[2] - t_first, L),
+                       nontrivial, labels)
+        if e[2] > t_last + L + SLACK:
+            return bad('C04/real-late', 'imap loss shown %.1fs after the last death'
+                       % (e[2] - t_last), nontrivial, labels)
+    if len(errs) != len(victims):
+        return bad('C04/real-imap-loss-count', '%d loss items for %d victims: %r'
+                   % (len(errs), len(victims), [i[:2] for i in body]),
+                   nontrivial, labels)
+    want_ok = [[x, 9] for x in range(n) if x not in victims]
+    if case['kind'] == 'imap':
+        for x, it in enumerate(body):
+            if (it[0] == 'err') != (x in victims):
+                return bad('C04/real-imap-position', 'ordered imap: item %d is %r,'
+                           ' victims %r' % (x, it[:2], sorted(victims)),
+                           nontrivial, labels)
+        if oks != want_ok:
+            return bad('C04/real-bystander', 'imap values %r' % (oks,), nontrivial,
+                       labels)
+    elif sorted(oks) != want_ok:
+        return bad('C04/real-bystander', 'imap_unordered values %r' % (oks,),
+                   nontrivial, labels)
+    for i in range(case['others']):
+        out = obs['jobs'].get('o%d' % i, {}).get('outcome')
+        if out != {'ok': True, 'value': i}:
+            return bad('C04/real-bystander', 'job o%d: %r' % (i, out), nontrivial,
+                       labels)
+    snap = obs['snapshots']['after']
+    if len(snap['pids']) != case['procs']:
+        return bad('C04/real-not-replaced', 'pool has %d workers for size %d after '
+                   'everything resolved' % (len(snap['pids']), case['procs']),
+                   nontrivial, labels)
+    for pid, _ in dies.values():
+        if pid in snap['pids']:
+            return bad('C04/real-victim-listed', 'dead worker %d still in the pool'
+                       % pid, nontrivial, labels)
+    return ok(nontrivial, labels)
+
+
 # ---------------------------------------------------------------------------
 # C05 / C06 limits (real)
 # ---------------------------------------------------------------------------
